@@ -275,11 +275,14 @@ fn print_intent(spec: &CmdSpec, il: &IntentLine) -> Option<Printed> {
             if min > 1 {
                 continue;
             }
+            // an OS-string / path option may carry a value that is not UTF-8
+            let val: &[u8] = if matches!(a.parser, ValParser::Os | ValParser::Path) && *b >= 8 { b"caf\xe9" } else { b"val7" };
+            let mut tok = sp.clone().into_bytes();
             if sp.starts_with("--") || a.require_equals {
-                args.push(OsString::from(format!("{sp}=val7")));
-            } else {
-                args.push(OsString::from(format!("{sp}val7")));
+                tok.push(b'=');
             }
+            tok.extend_from_slice(val);
+            args.push(B(tok).os());
         } else {
             args.push(OsString::from(sp));
         }
@@ -409,6 +412,37 @@ fn gen_line(rng: &mut Rng, spec: &CmdSpec) -> Line {
         };
         if rng.chance(1, 20) {
             args.clear();
+        }
+        // the word under the cursor is a delimited value list of an argument that declares a (possibly
+        // multi-byte) value delimiter
+        let mut delimited: Vec<(Option<&str>, &ArgSpec)> = spec.args.iter().filter(|a| a.value_delimiter.is_some() && a.takes_values()).map(|a| (None, a)).collect();
+        for sub in &spec.subs {
+            delimited.extend(sub.args.iter().filter(|a| a.value_delimiter.is_some() && a.takes_values()).map(|a| (Some(sub.name.as_str()), a)));
+        }
+        if !delimited.is_empty() && rng.chance(1, 2) {
+            let (via, a) = *rng.pick(&delimited);
+            let d = a.value_delimiter.unwrap();
+            let list = match rng.below(4) {
+                0 => format!("v1{d}"),
+                1 => format!("v1{d}v"),
+                2 => format!("{d}"),
+                _ => format!("v1{d}v2{d}v"),
+            };
+            let tok = match (&a.long, a.short) {
+                _ if a.is_positional() => list,
+                (Some(l), _) => format!("--{l}={list}"),
+                (None, Some(s)) => format!("-{s}{list}"),
+                _ => list,
+            };
+            let mut args = vec![B::s("prog"), B::s(&tok)];
+            if a.is_positional() && rng.coin() {
+                args.insert(1, B::s("--"));
+            }
+            if let Some(sub) = via {
+                args.insert(1, B::s(sub));
+            }
+            let index = args.len() as u32 - 1;
+            return Line::Soup { args, index };
         }
         Line::Soup { args, index }
     } else {
